@@ -232,7 +232,7 @@ func execC11(w *c11W, x *Exec) *Outcome {
 			}
 			submit := func(p []*gripql.GraphStatement) *jobRec {
 				rows, derr := direct(p)
-				job, err := srv.Srv.Submit(ctx, &gripql.GraphQuery{Graph: "g", Query: p})
+				job, err := srv.submitUnary(&gripql.GraphQuery{Graph: "g", Query: p})
 				if (err == nil) != (derr == nil) {
 					fail("C11/submit-disagrees", "C11/submit-disagrees-with-direct-traversal", fmt.Sprintf("%s: direct traversal error %v, submit error %v", stmtNames(p), derr, err))
 					return nil
